@@ -45,7 +45,11 @@ def iter_functions(repo, exclude=SCOPE_EXCLUDE):
             yield m, None, f
 
 
+_LOCK_ATTRS = {}
+
+
 def rule_rel(ctx):
+    _LOCK_ATTRS.clear()
     ctx.rule("C12.rel", "every lock acquire() reaches the matching release() on every path to every exit, including exceptional ones", floor=4)
     for m, c, f in iter_functions(ctx.repo):
         has = False
@@ -53,6 +57,22 @@ def rule_rel(ctx):
             if isinstance(n, ast.Call) and isinstance(n.func, ast.Attribute) and n.func.attr == "acquire":
                 has = True
                 break
+        # `with <lock>:` is the same critical section with the release guaranteed by the context manager
+        lock_attrs = _LOCK_ATTRS.get(c.qname) if c is not None else set()
+        if lock_attrs is None:
+            lock_attrs = _LOCK_ATTRS.setdefault(c.qname, set())
+            for k in ctx.repo.mro(c):
+                for fn_ in k.methods.values():
+                    for n in ast.walk(fn_):
+                        if isinstance(n, ast.Assign) and isinstance(n.value, ast.Call) and unparse(n.value.func).split(".")[-1] in ("Lock", "RLock", "Condition", "Semaphore", "BoundedSemaphore"):
+                            lock_attrs |= {unparse(t) for t in n.targets}
+        for n in ast.walk(f):
+            if isinstance(n, ast.With):
+                for i in n.items:
+                    txt = unparse(i.context_expr)
+                    if txt in lock_attrs or txt.lower().endswith("lock"):
+                        ctx.repo.consulted.add(m.relpath)
+                        ctx.hold("C12.rel", where(m.relpath, (c.name + "." if c else "") + f.name, n.lineno), "with %s" % txt, "released by the context manager on every exit")
         if not has:
             continue
         ctx.repo.consulted.add(m.relpath)
